@@ -114,3 +114,14 @@ package table
 //@   ensures [C06,C13:counts-accepted-keys] result == nil ==> w.nEntries == old(w.nEntries) + 1
 //@   ensures [C06,C13:rejected-keys-not-counted] result != nil ==> w.nEntries == old(w.nEntries)
 //@ count (*Writer).Append
+
+// C20: a value found in a table is handed out as a private copy (block buffers are shared through the block cache
+// and recycled through the buffer pool).
+//@ func (*Reader).find
+//@   props C20
+//@   safety off
+//@   ensures [C20:value-is-a-private-copy] isnil(value) || freshbase(value)
+//@ func (*Reader).Find
+//@   props C20
+//@   safety off
+//@   ensures [C20:value-is-a-private-copy] isnil(value) || freshbase(value)
